@@ -215,8 +215,21 @@ def check_metric(ctx: Check, tree: Tree) -> None:
     want = [[1, 0, 0, 0], [0, -1, 0, 0], [0, 0, -1, 0], [0, 0, 0, -1]]
     ok = isinstance(m, Mat) and all(equal(m.rows[i][j], RF.const(want[i][j])) for i in range(4) for j in range(4))
     ctx.verdict(ok, "R-TERM", f"{LOR}::MinkowskiMetric.as_explicit::diag", tree.loc(cls.info.node), "MinkowskiMetric.as_explicit == diag(1,-1,-1,-1)")
-    layout, _ = template_matrix(cls.method("_numpycode"))
-    got = [[s * (1 if n == "ones" else 0 if n == "zeros" else 99) for s, n in r] for r in layout]
+    npc = cls.method("_numpycode")
+    layout, _ = template_matrix(npc)
+    # the placeholders are locals built as f"ones(...)" / f"zeros(...)": classify by their definition
+    from ..dataflow import RD as _RD
+
+    prd = _RD(npc.node)
+    kind: dict[str, int] = {}
+    for d in prd.defs:
+        if d.value is not None and isinstance(d.value, ast.JoinedStr):
+            head = "".join(str(v.value) for v in d.value.values if isinstance(v, ast.Constant))
+            if head.startswith("ones("):
+                kind[d.name] = 1
+            elif head.startswith("zeros("):
+                kind[d.name] = 0
+    got = [[s * kind.get(n, 99) for s, n in r] for r in layout]
     ctx.verdict(got == want, "R-TERM", f"{LOR}::MinkowskiMetric._numpycode::diag", tree.loc(cls.method("_numpycode").node),
                 "MinkowskiMetric._numpycode template == diag(ones,-ones,-ones,-ones)", None if got == want else {"template": got})
     neg = te.classes[f"{LOR}::NegativeMomentum"]
